@@ -597,7 +597,9 @@ def judge(ctx, G, decompile, case, do_cache=True):
             try: t3 = decompile(obj3)[0]
             except Exception as ex: return 'cache', 'renamed twin raised %s' % type(ex).__name__
             if ast.dump(t3) != ast.dump(rename(tree, m)):
-                return 'cache', {'twin': twin_src, 'twin_decompiled': ast.unparse(t3)[:300]}
+                try: shown = ast.unparse(t3)[:300]
+                except Exception as e: shown = '<malformed tree: %s>' % type(e).__name__     # the witness text only
+                return 'cache', {'twin': twin_src, 'twin_decompiled': shown}
             ctx.count('cache.renamed_twins')
     return 'agree', None
 
